@@ -52,7 +52,7 @@ def strict_vs_ref(case, ref=None, t=None):
         rooted = _N % 5 == 3
         t = TR.run(case.t, case.d, strict=True, cc=case.cc, enc=case.enc, rooted=rooted)
         if rooted and t.root_escapes:
-            out.append(("root-path", "path-outside-root", f"decoded with root_path='.log.msg': {TR.pstr(t.root_escapes[0])} does not lie under that root"))
+            out.append(("root-path", "path-outside-root", f"decoded with root_path='.log.msg[2]': {TR.pstr(t.root_escapes[0])} does not lie under that root"))
     kind = ref_kind(ref)
     if kind == "unspecified":
         return ref, t, kind, out
